@@ -81,6 +81,23 @@ func (e *Effects) Writes() []Write {
 					w := Write{Instr: in, Fn: f, Addr: in.Map, What: "map element"}
 					w.Roots = e.provenance(in.Map, f, 0, map[ssa.Value]bool{})
 					out = append(out, w)
+				case *ssa.Send:
+					// a value put on a channel is state of the channel: whoever receives next gets it
+					w := Write{Instr: in, Fn: f, Addr: in.Chan, What: "channel (send)"}
+					w.Roots = e.provenance(in.Chan, f, 0, map[ssa.Value]bool{})
+					out = append(out, w)
+				case *ssa.UnOp:
+					if in.Op == token.ARROW {
+						w := Write{Instr: in, Fn: f, Addr: in.X, What: "channel (receive)"}
+						w.Roots = e.provenance(in.X, f, 0, map[ssa.Value]bool{})
+						out = append(out, w)
+					}
+				case *ssa.Select:
+					for _, st := range in.States {
+						w := Write{Instr: in, Fn: f, Addr: st.Chan, What: "channel (select)"}
+						w.Roots = e.provenance(st.Chan, f, 0, map[ssa.Value]bool{})
+						out = append(out, w)
+					}
 				case *ssa.Call:
 					if b, ok := in.Call.Value.(*ssa.Builtin); ok && b.Name() == "copy" {
 						w := Write{Instr: in, Fn: f, Addr: in.Call.Args[0], What: "copy destination"}
